@@ -159,6 +159,19 @@ def eval_case(case):
     em = PauliErrorModel(*r, deformation_name=name, deformation_kwargs=dict(kwargs))
     t = table(code, r, p, name, kwargs)
     rng = np.random.default_rng(case['rseed'])
+    if case.get('used_by_decoder') and 0 < p < 1:
+        # the model has already served a decoder (as it does in every
+        # simulation): decoders read its tables and must leave them alone
+        from panqec.decoders import BeliefPropagationOSDDecoder, MatchingDecoder
+        e0 = (rng.random(2 * n) < 0.2).astype(np.uint8)
+        users = [BeliefPropagationOSDDecoder(code, em, p, max_bp_iter=5, osd_order=0,
+                                             channel_update=True)]
+        if code.is_css and max(r[0] + r[1], r[2] + r[1]) * p < 0.5 and cls in (
+                'Toric2DCode', 'Planar2DCode', 'RotatedPlanar2DCode'):
+            users.append(MatchingDecoder(code, em, p))
+        for dec_ in users:
+            dec_.decode(code.measure_syndrome(e0))
+            dec_.decode(code.measure_syndrome(e0))
     nt = False
     evals = 0
     warnings.simplefilter('ignore')
@@ -308,6 +321,7 @@ def cases(draw, kind='exhaustive'):
             'deformation': name, 'kwargs': kw, 'n_errors': 24,
             'metropolis': draw(st.booleans()),
             'sibling': draw(st.sampled_from([None, None, 'axis', 'direction'])),
+            'used_by_decoder': draw(st.booleans()),
             'rseed': draw(st.integers(0, 2**30))}
 
 
